@@ -93,6 +93,21 @@ class C18Monitor(Monitor):
 
             return can_transmit_frame
 
+        def wrap_net_pre(orig):
+            def pre_timestep(net, timestep):
+                res = orig(net, timestep)
+                # every cabled link starts the tick empty - whatever the network's own bookkeeping of its links says
+                for link in net.links.values():
+                    if link.current_load != 0:
+                        mon.pending = mon.pending or Violation("C18", "load-not-reset", f"link {link} starts the tick with load {link.current_load!r}", sig="load-not-reset:network", detail={})
+                mon.count("network_resets_checked")
+                return res
+
+            return pre_timestep
+
+        from primaite.simulator.network.container import Network
+
+        self.patch(Network, "pre_timestep", wrap_net_pre)
         self.patch(AirSpace, "can_transmit_frame", wrap_air_can)
         self.patch(Link, "transmit_frame", wrap_transmit)
         self.patch(Link, "can_transmit_frame", wrap_can)
